@@ -13,7 +13,8 @@ def main():
     ck = Check("C03", "translation_validation")
     ck.lean_stage(["VelaVerif.Props.C03"])
     outs, lines, owners, answers = stream_checks.run(ck, "C03", 320, 6000,
-                                                     ["cascade", "cascade_chain", "weights", "lut", "elementwise", "mixed", "pattern", "cpu", "pattern", "pattern"])
+                                                     ["cascade", "cascade_chain", "weights", "lut", "elementwise", "mixed", "pattern", "cpu", "pattern", "pattern"],
+                                                     want=("stream", "inference"))
     programs = 0
     nontrivial = set()
     rejected = 0
@@ -35,6 +36,29 @@ def main():
             key = stream_checks.classify_tagged(msg, metas)
             ck.violation(f"read of undefined/stale/foreign bytes: {msg} (network {o['idx']} {o['profile']} {o.get('opts')})",
                          stream_checks.replay_obj(o, si, ans, line), key=key)
+    # whole-inference execution: CPU operators and every Ethos-U stream of the output graph on one tagged memory
+    stream_rejected = {id(o) for (o, si), ans in zip(owners, answers) if ans.get("tagged", 0) > 0 or ans["decode"] != "ok"}
+    inf_lines, inf_owner = [], []
+    for o in outs:
+        if o.get("inference_line"):
+            inf_lines.append(o["inference_line"])
+            inf_owner.append(o)
+    inf_ans = ck.model(inf_lines) if inf_lines else []
+    for o, a in zip(inf_owner, inf_ans):
+        ck.count("inference_executions")
+        pa = stream_checks.parse_answer(a)
+        ncpu = o["inference_line"].count("step=cpu~")
+        if ncpu:
+            ck.count("inference_with_cpu_steps")
+            nontrivial.add((o["profile"], o["idx"], "inference", tuple(o.get("opts", []))))
+        if pa["decode"] != "ok":
+            ck.violation(f"inference of network {o['idx']} ({o['profile']}) does not decode: {a[:200]}",
+                         {"profile": o["profile"], "seed": o["seed"], "index": o["idx"], "opts": o.get("opts"), "network": o.get("desc"), "verdict": a[:600]})
+        elif pa.get("tagged", 0) > 0 and id(o) not in stream_rejected:
+            rejected += 1
+            ck.violation(f"whole-inference execution: {pa['tagged_msgs'][0]} (network {o['idx']} {o['profile']} {o.get('opts')})",
+                         {"profile": o["profile"], "seed": o["seed"], "index": o["idx"], "opts": o.get("opts"), "network": o.get("desc"),
+                          "verdict": a[:1500], "request_head": o["inference_line"][:400]})
     for (o, si), ans in list(zip(owners, answers))[:3]:
         ck.sample({"network": o["desc"], "opts": o["opts"], "features": o.get("features"), "verdict": ans["raw"][:160]})
     ck.finish({
